@@ -150,6 +150,45 @@ def enumerators(draw, ename):
 
 
 KIND_W = [("struct", 50), ("union", 10), ("enum", 15), ("typedef", 20), ("opaque", 5)]
+KIND_W_CXX = [("struct", 30), ("class", 30), ("union", 8), ("enum", 12), ("typedef", 15), ("opaque", 5)]
+
+
+def _strip_top_const(t):
+    while t[0] in ("c", "v"):
+        t = t[1]
+    if t[0] == "a":
+        return ["a", _strip_top_const(t[1]), t[2]]
+    return t
+
+
+def klass(draw, cx, name, earlier):
+    """A C++ class: data members with access specifiers, 0-2 (possibly virtual) bases among the earlier complete
+    structs/classes, 0-3 member functions (virtual or not, defined out of line), optionally a static data member."""
+    ms = members(draw, cx, "", 0, 5, 0, True, False)
+    for mm in ms:
+        mm["access"] = _pick(draw, ["public", "public", "protected", "private"])
+        if "anon" in mm:
+            for x in M._members_flat(mm["members"]):
+                x["type"] = _strip_top_const(x["type"])
+        else:
+            mm["type"] = _strip_top_const(mm["type"])
+    ms.sort(key=lambda mm: 0)  # keep declaration order; access labels are emitted on change
+    t = {"kind": "class", "name": name, "members": ms, "bases": [], "methods": []}
+    cands = [e["name"] for e in earlier if e["kind"] in ("struct", "class") and not any(
+        mm.get("bits") is None and "anon" not in mm and M.strip_cv(mm["type"]) != mm["type"] for mm in e["members"])]
+    nb = _weighted(draw, [(0, 5), (1, 4), (2, 1)])
+    for b in sorted(set(_pick(draw, cands) for _ in range(nb))) if cands else []:
+        t["bases"].append({"name": b, "virtual": draw(st.integers(0, 4)) == 0,
+                           "access": _pick(draw, ["public", "public", "protected", "private"])})
+    for j in range(draw(st.integers(0, 3))):
+        t["methods"].append({"name": "me%d" % j, "ret": rettype(draw, cx, 1),
+                             "params": [{"name": "a%d" % q, "type": paramtype(draw, cx, 1)} for q in range(draw(st.integers(0, 2)))],
+                             "virtual": draw(st.integers(0, 2)) == 0, "access": _pick(draw, ["public", "public", "protected", "private"]),
+                             "const": draw(st.integers(0, 3)) == 0})
+    if draw(st.integers(0, 5)) == 0:
+        ms.append({"name": "sm0", "type": ["b", _pick(draw, ["int", "long", "char"])], "bits": None, "static": True,
+                   "access": "public"})
+    return t
 
 
 @st.composite
@@ -159,9 +198,17 @@ def library(draw, lang="c", min_types=1, max_types=8, min_funcs=1, max_funcs=6, 
         lang = _pick(draw, ["c", "c", "cxx"])
     cxx = lang == "cxx"
     nt = draw(st.integers(min_types, max_types))
-    kinds = [_weighted(draw, kind_w or KIND_W) for _ in range(nt)]
+    kinds = [_weighted(draw, kind_w or (KIND_W_CXX if cxx else KIND_W)) for _ in range(nt)]
     pre = {"struct": "st", "union": "un", "enum": "en", "typedef": "td", "opaque": "op", "class": "cl"}
     names = ["%s%d" % (pre[k], i) for i, k in enumerate(kinds)]
+    tpl = {}
+    if cxx:
+        # some structs are explicit specialisations of a class template: the type is called "tpN<arg>"
+        for i, k in enumerate(kinds):
+            if k == "struct" and draw(st.integers(0, 5)) == 0:
+                arg = _pick(draw, ["int", "char", "unsigned long", "double"])
+                tpl[i] = arg
+                names[i] = "tp%d<%s>" % (i, arg)
     cx = Ctx(kinds, names, cxx)
     types = []
     for i, k in enumerate(kinds):
@@ -169,6 +216,10 @@ def library(draw, lang="c", min_types=1, max_types=8, min_funcs=1, max_funcs=6, 
         nm = names[i]
         if k in ("struct", "union"):
             t = {"kind": k, "name": nm, "members": members(draw, cx, "", 1, 6, 0, True, k == "union")}
+            if i in tpl:
+                t["tpl"] = tpl[i]
+        elif k == "class":
+            t = klass(draw, cx, nm, types)
         elif k == "enum":
             t = {"kind": "enum", "name": nm, "enumerators": enumerators(draw, nm)}
         elif k == "typedef":
